@@ -6,6 +6,9 @@ package c06
 // distributed over A and B in every way, and A is queried with every limit: the answer must be the newest `limit`
 // messages of the union, oldest first. (Payloads are small: the reply-size cap of a single node never binds here.)
 //
+// Part (many): 100 small messages on one channel (local, on the peer, alternating) and limits 63…150: the answer
+// is the newest min(limit, 100) of them.
+//
 // Part (retained): a message stored with the retain marker lives for the configured retention period — the store is
 // configured with a retention of 2 s, retained and long-lived messages are stored, and after the period (plus a
 // margin; waiting longer can only make the verdict more certain) only the long-lived ones may come back.
@@ -29,6 +32,7 @@ type peerCase struct {
 	Provider string `json:"provider"`
 	OnB      []bool `json:"stored_on_peer,omitempty"` // message i (oldest first) is stored on the peer
 	Limit    int    `json:"limit,omitempty"`
+	Spread   string `json:"spread,omitempty"` // part "many": local | peer | alternate
 }
 
 // linkSurvey answers a store's survey with the peer store's real OnSurvey.
@@ -149,6 +153,60 @@ func runPeer(c *core.Ctx, root string, pc peerCase) {
 	}
 }
 
+// runMany: more matching messages than any internal buffer is sized for (100 small ones, spread over the two
+// nodes in three ways), queried with limits around and above those sizes.
+func runMany(c *core.Ctx, root string, pc peerCase) {
+	a, b, cleanup, err := openPair(pc.Provider, root, 0)
+	if err != nil {
+		core.HarnessFailure("C06 many part: cannot open the stores: %v", err)
+	}
+	defer cleanup()
+	const n = 100
+	now := time.Now().Unix()
+	names := make([]string, n)
+	for i := 0; i < n; i++ {
+		id := message.NewID(peerSsid)
+		id.SetTime(now - int64(5*(n-i)))
+		names[i] = fmt.Sprintf("m%03d", i+1)
+		m := message.Message{ID: id, Channel: []byte("x/a/"), Payload: []byte(names[i]), TTL: 100000}
+		dst := storage.Storage(a)
+		if pc.Spread == "peer" || (pc.Spread == "alternate" && i%2 == 1) {
+			dst = b
+		}
+		if err := dst.Store(&m); err != nil {
+			c.Violate(pc.Provider+":many:store-failed", err.Error(), pc)
+			return
+		}
+	}
+	f, err := a.Query(peerSsid, time.Unix(now-10000, 0), time.Unix(now+10, 0), nil, pc.Limit)
+	if err != nil {
+		c.Violate(pc.Provider+":many:query-failed", err.Error(), pc)
+		return
+	}
+	var got []string
+	for _, m := range f {
+		got = append(got, string(m.Payload))
+	}
+	k := pc.Limit
+	if k > n {
+		k = n
+	}
+	want := names[n-k:]
+	if strings.Join(got, " ") != strings.Join(want, " ") {
+		kind := "missing"
+		if len(got) > len(want) {
+			kind = "too-many"
+		} else if len(got) == len(want) {
+			kind = "not-the-most-recent"
+		}
+		first, last := "", ""
+		if len(got) > 0 {
+			first, last = got[0], got[len(got)-1]
+		}
+		c.Violate(fmt.Sprintf("%s:many:%s:%s", pc.Provider, pc.Spread, kind), fmt.Sprintf("%d small messages stored (%s), query with limit %d returned %d messages (%s … %s), expected the most recent %d (%s … %s)", n, pc.Spread, pc.Limit, len(got), first, last, k, want[0], want[len(want)-1]), pc)
+	}
+}
+
 func runRetained(c *core.Ctx, root string, pc peerCase) {
 	const retain = 2
 	a, _, cleanup, err := openPair(pc.Provider, root, retain)
@@ -212,8 +270,19 @@ func partPeer(c *core.Ctx, root string) {
 			}
 		}
 	}
+	for _, p := range providers {
+		for _, spread := range []string{"local", "peer", "alternate"} {
+			for _, limit := range []int{63, 64, 65, 80, 100, 150} {
+				runMany(c, root, peerCase{Part: "many", Provider: p, Spread: spread, Limit: limit})
+				c.Add("evaluations", 1)
+				c.Add("many_cases", 1)
+				c.Distinct("nontrivial", fmt.Sprintf("many|%s|%s|%d", p, spread, limit))
+			}
+		}
+	}
 	<-done
 	c.Sample(peerCase{Part: "peer", Provider: "ssd", OnB: []bool{false, false, true, true}, Limit: 1})
 	c.Assume("peer part: two stores of one provider, the queried store's cluster survey answered by the other store's real OnSurvey (no mesh transport); small payloads only, so a single node's reply-size cap never binds")
+	c.Assume("many part: 100 messages of 4 bytes on one channel (all on the queried node, all on the peer, alternating), limits 63-150; the reply stays far below the 64 KiB cap")
 	c.Assume("retained part: retention configured to 2 s, query 5 s after the stores; only 'an expired retained message is not returned' is judged (waiting longer cannot turn that verdict around)")
 }
